@@ -1,6 +1,6 @@
 """C08 — minimize preserves meaning, never lengthens, and is idempotent (DESIGN §4.8)."""
 from .. import px as pxm
-from . import common, likely, c07
+from . import common, likely, c07, tables
 
 
 def purity(prog, rep, fns):
@@ -25,6 +25,9 @@ def run(tier, replay=None):
     prog = common.program('K1')
     rep.count('configuration', 'K1 (likelysubtags): %d bodies' % len(prog.bodies))
     res = likely.check_minimize(prog, rep)
+    # the chosen form equals the reference implementation's only if maximize is the CLDR function: tables and cascade (shared with C06)
+    ct, exp, order, nrows = tables.likely(prog, rep)
+    likely.check_maximize(prog, rep, ct, order)
     mx = likely.find_likely_fn(prog, 'maximize')
     mn = likely.find_likely_fn(prog, 'minimize')
     purity(prog, rep, mx)
